@@ -1,6 +1,7 @@
 import VlsModel.Lemmas.Bolt3
 import VlsModel.Lemmas.Bolt3Bytes
 import VlsModel.Model.Bolt3Htlc
+import VlsModel.Model.Bolt3Filter
 /-
 C04 — Commitment signatures bind to the BOLT-3 transaction of the validated content.
 
@@ -76,6 +77,39 @@ theorem C04_phase1_accepts_only_canon (env : Env) (s : Setup) (k : Keys) (tx : C
     by_cases hEq : rtx = tx
     · exact hEq.symm
     · exact absurd ⟨hEq, hm⟩ hne
+
+/-- **C04_phase1_only_canon_under_filter.**  The "accepts only canon" conjunct with the hypothesis about the policy
+    filter spelt out in terms of its *rules*: for a node whose filter has the rules `rules`
+    (`env.mismatchIsError = mismatchIsErrorOf rules`, the value of `PolicyFilter::filter("policy-commitment")`, tied to
+    the source by `C04_fn_policy_filter`), if no rule matches the tag `policy-commitment` — the empty default filter,
+    exact rules for other tags such as `policy-commitment-fee-range`, prefix rules that are not a prefix of the tag —
+    or the first matching rule is an error rule, then whatever transaction phase 1 accepts is the canonical one. -/
+theorem C04_phase1_only_canon_under_filter (rules : List FRule) (hr : filterIsError rules TAG_COMMITMENT = true)
+    (env : Env) (henv : env.mismatchIsError = mismatchIsErrorOf rules) (s : Setup) (k : Keys) (tx : CTx H)
+    (ws : List (Option Script)) (commitNum feerate : Nat) (offered received : List Htlc) (sig : S)
+    (h : phase1 wsh okey cr env s k tx ws commitNum feerate offered received = .ok sig) :
+    ∃ info, decode wsh s k tx ws = some info ∧
+      canon wsh okey s k (decodedContent info commitNum feerate offered received) = some tx ∧
+      sig = cr.sign env.fundingKey (cr.sighash tx s.channelValue) := by
+  obtain ⟨info, rtx, hd, hc, hs, he⟩ :=
+    C04_phase1_accepts_only_canon wsh okey cr env s k tx ws commitNum feerate offered received sig h
+  have hm : env.mismatchIsError = true := by rw [henv]; exact hr
+  have := he hm
+  subst this
+  exact ⟨info, hd, hc, hs⟩
+
+/-- a filter none of whose rules matches the tag keeps it an error (`PolicyFilter::default()` has no rule at all) -/
+theorem C04_filter_unmatched_is_error (rules : List FRule) (h : ∀ r ∈ rules, r.matchesTag TAG_COMMITMENT = false) :
+    filterIsError rules TAG_COMMITMENT = true := by
+  induction rules with
+  | nil => rfl
+  | cons r rs ih =>
+    have h1 := h r (List.mem_cons_self ..)
+    simp only [filterIsError, h1, Bool.false_eq_true, if_false]
+    exact ih (fun r' hr' => h r' (List.mem_cons_of_mem _ hr'))
+
+/-- non-vacuity: the default policy's filter (`PolicyFilter::default()`: no rule) satisfies the hypothesis -/
+example : filterIsError [] TAG_COMMITMENT = true := rfl
 
 /-- **C04_decode_canon.**  For well-formed `(setup, keys, content)` (`wf`, decidable) the decoder
     recognises every output of the canonical transaction and extracts exactly the content's balances
@@ -286,6 +320,7 @@ theorem C04_htlc_raw_signs_recomposed {M' S' : Type} [DecidableEq M'] (crh : Htl
     injection h with h
     refine ⟨offered, i, v, hside, by simp [hin], ⟨o, by simp [hout], by omega, hv⟩, ?_, h.symm⟩
     exact (Decidable.of_not_not heq).symm
+  · cases h
   · cases h
 
 omit [DecidableEq H] in
